@@ -209,12 +209,14 @@ def main():
         else:
             run_positions(w['expr'])
         O.finish()
+    # literals that are not data of the language: the Ellipsis singleton, bytes, complex numbers
+    odd = ['...', '"%s" % ...', 'b"x"', '1j', '[... for r in orders]', 'trim(...)', '1j * amount']
     gen = ['(c for c in description)', 'uppercase((x for x in orders))', 'trim((r.item for r in orders))',
            # a generator that is not the direct argument of a consuming function: an element of a comprehension, an operand, the value of :=, inside a list
            '[(r.item for r in orders) for x in orders]', '"%s" % (r.item for r in orders)', 'trim([(r.item for r in orders) for x in orders])',
            '(g := (r.item for r in orders)) and g', '[x for x in [(r.item for r in orders)]]' if False else '((r.item for r in orders) if true else 0)',
            'len([(r.item for r in orders) for x in orders]) == 2 and [(r.item for r in orders) for x in orders][0]', '"a" + str((r.item for r in orders))' if False else 'lowercase((r.item for r in orders))']
-    for e in ESCAPES + BENIGN + gen:
+    for e in ESCAPES + BENIGN + gen + odd:
         run_txn(e)
         run_positions(e)
     for e in SECTION_EXPRS + ESCAPES[:40]:
